@@ -71,7 +71,7 @@ func VerifHarness_C14_requests() {
 	ctx := context.Background()
 	nEvents, nConns := 4, 2
 	if verifrt.Thorough() {
-		nEvents, nConns = 5, 3
+		nEvents, nConns = 5, 2 // (5 events on 3 connections are 1.8 M paths and close to an hour)
 	}
 	txs := []*wire.MsgTx{c14Tx(0), c14Tx(1)}
 	txids := []bitcoin.Hash32{*txs[0].TxHash(), *txs[1].TxHash()}
@@ -89,7 +89,9 @@ func VerifHarness_C14_requests() {
 	var txChannel TxChannel
 	txChannel.Open(10)
 	txHandler := NewTXHandler(st, &txChannel)
-	queued := []bool{false, false} // arrived, still waiting for the transaction processor
+	queued := []bool{false, false}  // arrived, still waiting for the transaction processor
+	arrived := []bool{false, false} // the node has the body (set again when a body that was still queued
+	// at its confirmation is processed afterwards: the node then holds it, and says so)
 	process := func() {
 		for len(txChannel.Channel) > 0 {
 			td := <-txChannel.Channel
@@ -99,6 +101,7 @@ func VerifHarness_C14_requests() {
 			for k := range txids {
 				if txids[k] == *td.Msg.TxHash() {
 					queued[k] = false
+					arrived[k] = true
 				}
 			}
 		}
@@ -113,7 +116,6 @@ func VerifHarness_C14_requests() {
 	}
 
 	// reference bookkeeping
-	arrived := []bool{false, false}
 	confirmed := []bool{false, false}
 	lastReq := []int64{-1, -1}                  // time of the last getdata per tx (-1: never)
 	waiting := make([][]bool, nConns)           // conn announced tx and was told to wait (tracked)
